@@ -101,6 +101,9 @@ structure World where
   txIndex : Nat := 0
   transient : SMap := []
   access : List Addr := []
+  /-- stake of the miner registered for an account (`miner.Stake`, kept in the storage of the miner
+      database account; read by `GetMiner`, written by `AddStake` / `GetRefundStake`) -/
+  stake : AMap Nat := []
   deriving Repr, Inhabited
 
 namespace World
@@ -112,6 +115,7 @@ def getCode (w : World) (a : Addr) : Code := w.code.get .empty a
 def hasSuicided (w : World) (a : Addr) : Bool := w.sui.get false a
 def getState (w : World) (a : Addr) (k : Nat) : Nat := w.stor.get a k
 def getTransient (w : World) (a : Addr) (k : Nat) : Nat := w.transient.get a k
+def getStake (w : World) (a : Addr) : Nat := w.stake.get 0 a
 def inAccessList (w : World) (a : Addr) : Bool := w.access.contains a
 /-- `AccountDB.GetLogs(hash)` -/
 def getLogs (w : World) (h : Nat) : List Log := w.logs.filter (fun l => l.txh == h)
@@ -179,10 +183,12 @@ structure Obs where
   code : Addr → Code
   stor : Addr → Nat → Nat
   logs : List Log
+  /-- miner stakes: storage of the miner database account -/
+  stake : Addr → Nat
 
 def obs (w : World) : Obs :=
   { exist := w.exists?, nonce := w.getNonce, bal := w.getBalance, code := w.getCode,
-    stor := w.getState, logs := w.logs }
+    stor := w.getState, logs := w.logs, stake := w.getStake }
 
 /-- Per-transaction scratch state and log stamping context. -/
 structure Scratch where
